@@ -113,7 +113,67 @@ func c16Deep(r *rand.Rand, inner any, depth int) any {
 	return cur
 }
 
+// c16Big: arrays and objects with 70 thousand to 1.1 million entries (decoders that pre-size, cap
+// and grow by rules of their own only show them at such sizes), at top level and one level down
+func c16Big(c *core.Ctx, idx int) {
+	rec := c.Rec
+	cfg := instCfgs()[idx%4]
+	name := cfgName(cfg)
+	p := instNew(cfg)
+	n := []int{1048579, 70001, 300007, 1<<20 + 1}[(idx/211)%4]
+	a := make([]any, n)
+	for i := range a {
+		a[i] = i % 100
+	}
+	a[n/2] = "mid"
+	a[n-1] = nil
+	m := map[string]any{"first": 1, "arr": a, "last": "z"}
+	for k, top := range []any{a, m} {
+		var data []byte
+		var err error
+		var pn string
+		if k == 0 {
+			data, err, pn = marshal(p, nil, &a)
+		} else {
+			data, err, pn = marshal(p, nil, &m)
+		}
+		rec.Eval(1)
+		if err != nil || pn != "" {
+			rec.Violation("json-marshal", fmt.Sprintf("[%s] array of %d entries: %v %s", name, n, err, trunc1(pn)), nil)
+			return
+		}
+		var got any
+		if k == 0 {
+			var ga []any
+			err, pn = unmarshal(p, data, &ga)
+			got = ga
+		} else {
+			var gm map[string]any
+			err, pn = unmarshal(p, data, &gm)
+			got = gm
+		}
+		if err != nil || pn != "" {
+			rec.Violation("json-unmarshal", fmt.Sprintf("[%s] array of %d entries (%d bytes): %v %s", name, n, len(data), err, trunc1(pn)), nil)
+			return
+		}
+		if ga, ok := got.([]any); ok && len(ga) != n {
+			rec.Violation("json-round-trip", fmt.Sprintf("[%s] an array of %d entries comes back with %d", name, n, len(ga)), nil)
+			return
+		}
+		if !model.JSONEqual(top, got) {
+			rec.Violation("json-round-trip", fmt.Sprintf("[%s] a JSON value holding an array of %d entries does not round-trip", name, n), nil)
+			return
+		}
+	}
+	rec.Count("big_json_arrays", 1)
+	rec.NonTrivial(core.Hash64("bigjson", name, fmt.Sprint(n)))
+}
+
 func c16Case(c *core.Ctx, idx int) {
+	if idx%211 == 7 {
+		c16Big(c, idx)
+		return
+	}
 	rec := c.Rec
 	r := c.Rand(idx)
 	cfg := instCfgs()[idx%4]
